@@ -766,9 +766,9 @@ Proof.
   destruct (at_path path f O (root_es s)); [apply with_root_d|reflexivity].
 Qed.
 
-Lemma step_d s o : s_d (fst (Store.step s o)) = s_d s.
+Lemma step0_d s o : s_d (fst (Store.step0 s o)) = s_d s.
 Proof.
-  destruct o; cbn [Store.step].
+  destruct o; cbn [Store.step0].
   - destruct (Nat.leb (length pt) (nranks s) && negb (Nat.eqb (length pt) 0)); [|reflexivity].
     destruct (get_ref (nranks s) (s_d s) w O pt (root_es s) (s_next s) (s_ranks s))
       as [[[es' nx] rk] r]. apply with_root_d.
@@ -841,6 +841,17 @@ Proof.
       [|reflexivity].
     destruct (at_path_st path _ O (root_es s) (s_next s) (s_ranks s)) as [[[es' nx] rk]|];
       [apply with_root_d|reflexivity].
+  - reflexivity.
+Qed.
+
+(* OSetItemCF = the coordinate-only assignment, then the fiber-only assignment (step_decomp) *)
+Lemma step_d s o : s_d (fst (Store.step s o)) = s_d s.
+Proof.
+  destruct (step_decomp s o) as [E|(path & pos & c & t & _ & [[E _]|(s1 & r1 & _ & E1 & E2)])].
+  - rewrite E. apply step0_d.
+  - rewrite E. reflexivity.
+  - pose proof (step0_d s (OSetItem path pos (Some c) None)) as Hd1. rewrite E1 in Hd1. cbn [fst] in Hd1.
+    rewrite E2, <- Hd1. apply step0_d.
 Qed.
 
 (* ---------- evaluating the oracle's step on the shapes the model produces ---------- *)
@@ -851,7 +862,8 @@ Definition resync_op (o : op) : Prop :=
   match o with
   | OAppend _ _ _ | OSetItem _ _ _ _ | OClear _ | OUpdCoords _ _ _ _ | OUpdCoordsTbl _ _ _ _
   | OUpdPayloads _ _ _ | OShapeRef _ _ _ _
-  | OAppendFib _ _ _ | OExtend _ _ | OSetItemFib _ _ _ | OAssignFib _ _ => True
+  | OAppendFib _ _ _ | OExtend _ _ | OSetItemFib _ _ _ | OAssignFib _ _
+  | OSetItemCF _ _ _ _ => True
   | _ => False
   end.
 
@@ -1055,7 +1067,7 @@ Lemma ok_OGet s m pt :
 Proof.
   intros (rid & ow & es & Hr & Hn & Hw) HI Hnb.
   pose proof (root_es_of s rid ow es Hr) as Hre. rewrite Hre in HI.
-  unfold step_ok. cbn [Store.step] in *.
+  unfold step_ok. cbn [Store.step Store.step0] in *.
   destruct (Nat.leb (length pt) (nranks s) && negb (Nat.eqb (length pt) 0)) eqn:Hg;
     [|exfalso; apply Hnb; reflexivity].
   cbn [fst snd]. clear Hnb. apply andb_true_iff in Hg. destruct Hg as [Hle Hnz].
@@ -1078,7 +1090,7 @@ Lemma ok_OGetRef s m pt w :
 Proof.
   intros (rid & ow & es & Hr & Hn & Hw) HI Hnb.
   pose proof (root_es_of s rid ow es Hr) as Hre. rewrite Hre in HI.
-  unfold step_ok. cbn [Store.step] in *.
+  unfold step_ok. cbn [Store.step Store.step0] in *.
   destruct (Nat.leb (length pt) (nranks s) && negb (Nat.eqb (length pt) 0)) eqn:Hg;
     [|exfalso; apply Hnb; reflexivity].
   clear Hnb. apply andb_true_iff in Hg. destruct Hg as [Hle Hnz].
@@ -1117,7 +1129,7 @@ Lemma ok_OGetPos s m path c sp :
 Proof.
   intros (rid & ow & es & Hr & Hn & Hw) HI Hnb.
   pose proof (root_es_of s rid ow es Hr) as Hre.
-  unfold step_ok. cbn [Store.step] in *.
+  unfold step_ok. cbn [Store.step Store.step0] in *.
   destruct (Nat.ltb (length path) (nranks s)) eqn:Hlt; [|exfalso; apply Hnb; reflexivity].
   destruct (fiber_at path (root_es s)) as [e|] eqn:Hf; [|exfalso; apply Hnb; reflexivity].
   destruct (sp_in_range (norm_sp sp e) e); [|exfalso; apply Hnb; reflexivity].
@@ -1136,7 +1148,7 @@ Lemma ok_OGetSP s m path c sp :
 Proof.
   intros (rid & ow & es & Hr & Hn & Hw) HI Hnb.
   pose proof (root_es_of s rid ow es Hr) as Hre.
-  unfold step_ok. cbn [Store.step] in *.
+  unfold step_ok. cbn [Store.step Store.step0] in *.
   destruct (Nat.ltb (length path) (nranks s)) eqn:Hlt; [|exfalso; apply Hnb; reflexivity].
   destruct (fiber_at path (root_es s)) as [e|] eqn:Hf; [|exfalso; apply Hnb; reflexivity].
   destruct (sp_in_range (norm_sp sp e) e); [|exfalso; apply Hnb; reflexivity].
@@ -1214,7 +1226,7 @@ Lemma ok_OGetPosRef s m path c sp :
   wf_st s -> INV (nranks s) (s_d s) m (root_es s) ->
   snd (Store.step s (OGetPosRef path c sp)) <> BadAddress -> step_ok s (OGetPosRef path c sp) m.
 Proof.
-  intros Hs HI Hnb. unfold step_ok. cbn [Store.step] in *.
+  intros Hs HI Hnb. unfold step_ok. cbn [Store.step Store.step0] in *.
   destruct (Nat.ltb (length path) (nranks s)) eqn:Hlt; [|exfalso; apply Hnb; reflexivity].
   destruct (fiber_at path (root_es s)) as [e|] eqn:Hf; [|exfalso; apply Hnb; reflexivity].
   destruct (sp_in_range (norm_sp sp e) e); [|exfalso; apply Hnb; reflexivity].
@@ -1252,7 +1264,7 @@ Lemma ok_OGetRefSP s m path c sp w :
   wf_st s -> INV (nranks s) (s_d s) m (root_es s) ->
   snd (Store.step s (OGetRefSP path c sp w)) <> BadAddress -> step_ok s (OGetRefSP path c sp w) m.
 Proof.
-  intros Hs HI Hnb. unfold step_ok. cbn [Store.step] in *.
+  intros Hs HI Hnb. unfold step_ok. cbn [Store.step Store.step0] in *.
   destruct (Nat.ltb (length path) (nranks s)) eqn:Hlt; [|exfalso; apply Hnb; reflexivity].
   destruct (fiber_at path (root_es s)) as [e|] eqn:Hf; [|exfalso; apply Hnb; reflexivity].
   destruct (sp_in_range (norm_sp sp e) e); [|exfalso; apply Hnb; reflexivity].
@@ -1305,7 +1317,7 @@ Lemma ok_OGetD s m pt dflt :
 Proof.
   intros (rid & ow & es & Hr & Hn & Hw) HI Hnb.
   pose proof (root_es_of s rid ow es Hr) as Hre.
-  unfold step_ok. cbn [Store.step] in *.
+  unfold step_ok. cbn [Store.step Store.step0] in *.
   destruct (Nat.leb (length pt) (nranks s) && negb (Nat.eqb (length pt) 0));
     [|exfalso; apply Hnb; reflexivity].
   cbn [fst snd]. exists m. split; [|exact HI]. apply ev_OGetD.
@@ -1341,6 +1353,7 @@ Proof.
   - apply ok_OGetSP; assumption.
   - apply ok_OGetRefSP; assumption.
   - apply ok_OGetD; assumption.
+  - apply ok_resync; [exact Hs|exact I].
   - apply ok_resync; [exact Hs|exact I].
   - apply ok_resync; [exact Hs|exact I].
   - apply ok_resync; [exact Hs|exact I].
